@@ -307,4 +307,12 @@ def CmpOK (es : List Event) : Prop := cmpOKb es = true
 
 instance : DecidablePred CmpOK := fun es => by unfold CmpOK; exact inferInstance
 
+/-- `WriteStructEnd` / `ReadStructEnd` never come without their `…Begin` (`depth` = structs open). -/
+def cmpBalanced : Nat → List Event → Bool
+  | _, [] => true
+  | k, .sb _ :: es => cmpBalanced (k + 1) es
+  | 0, .se :: _ => false
+  | k + 1, .se :: es => cmpBalanced k es
+  | k, _ :: es => cmpBalanced k es
+
 end FV.Thrift
